@@ -8,6 +8,7 @@ import XrayProofs.IntArith
 import XrayProofs.LazyIntOps
 import XrayProofs.IntBinom
 import XrayProofs.IntDigits
+import XrayProofs.IntText
 namespace XrayModel.C14
 open XrayModel LB
 
@@ -280,6 +281,71 @@ theorem digits_small_base (n b : LB) (hb : b.wf) (hb2 : b.den < 2) :
     rw [cmp_spec b (short 2) hb (by decide), beq_iff_eq, Int.compare_eq_lt]
     simp only [den_short]; omega
   rw [h1]; rfl
+
+/-! ### conversion to and from text -/
+
+theorem ofInt_den_self (a : LB) (ha : a.wf) : LB.ofInt a.den = a := by
+  cases a <;> simp only [LB.ofInt, den_short, den_long] <;> simp only [LB.wf] at ha <;> simp [ha]
+
+/-- text round trip in every radix `2 ≤ r ≤ 36`, at every magnitude (both the `i128` fast path and the
+big-integer path of `from_str_radix`): parsing the text of `v` gives back `v`, canonical -/
+theorem toStr_ofStr (v : Int) (r : Nat) (h2 : 2 ≤ r) (h36 : r ≤ 36) :
+    LB.fromStrRadix (toStrRadix v r) r = some (LB.ofInt v) :=
+  Text.roundtrip v r h2 h36
+
+/-- `to_int(to_str(a)) = a` -/
+theorem toInt_toStr (a : LB) (ha : a.wf) : IntB.toInt (LB.toStr a) (short 10) = .int a := by
+  unfold IntB.toInt LB.toStr
+  have h1 : (LB.cmp (short 10) (short 1) != .gt) = false := by decide
+  have h2 : (LB.cmp (short 10) (short 36) == .gt) = false := by decide
+  rw [h1, h2]
+  simp only [Bool.false_eq_true, if_false, den_short]
+  have : (10 : Int).toNat = 10 := rfl
+  rw [this, Text.roundtrip a.den 10 (by decide) (by decide), ofInt_den_self a ha]
+
+/-- `to_int(s, base)`: the two documented guards are error values -/
+theorem toInt_base_guards (s : List Char) (base : LB) (hb : base.wf) :
+    (base.den ≤ 1 → IntB.toInt s base = .err "base must be larger than 1") ∧
+    (36 < base.den → IntB.toInt s base = .err "base must be lower than 36") := by
+  unfold IntB.toInt
+  rw [cmp_spec base (short 1) hb (by decide), cmp_spec base (short 36) hb (by decide)]
+  simp only [den_short]
+  constructor
+  · intro h
+    have : compare base.den 1 ≠ .gt := by rw [Ne, Int.compare_eq_gt]; omega
+    simp [this]
+  · intro h
+    have h1 : compare base.den 1 = .gt := by rw [Int.compare_eq_gt]; omega
+    have h2 : compare base.den 36 = .gt := by rw [Int.compare_eq_gt]; omega
+    simp [h1, h2]
+
+/-- the text of an integer determines it: different integers have different text (in every radix) -/
+theorem toStr_injective (v w : Int) (r : Nat) (h2 : 2 ≤ r) (h36 : r ≤ 36)
+    (h : toStrRadix v r = toStrRadix w r) : v = w := by
+  have hv := Text.roundtrip v r h2 h36
+  have hw := Text.roundtrip w r h2 h36
+  rw [h, hw] at hv
+  have := congrArg LB.den (Option.some.inj hv)
+  rw [ofInt_den, ofInt_den] at this
+  exact this.symm
+
+/-- `magnitude_to_str` in the four format radices never panics, for either representation, and the int
+`format` with a bare type (`""`, `"x"`, `"o"`, `"b"`) is sign + magnitude, which parses back -/
+theorem format_plain (a : LB) (ha : a.wf) (t : Option Char) (r : Nat)
+    (ht : (t, r) = (none, 10) ∨ (t, r) = (some 'x', 16) ∨ (t, r) = (some 'o', 8) ∨ (t, r) = (some 'b', 2)) :
+    IntB.format a { ty := t } = .str (toStrRadix a.den r) ∧
+    LB.fromStrRadix (toStrRadix a.den r) r = some a := by
+  have hr : 2 ≤ r ∧ r ≤ 36 := by
+    rcases ht with h | h | h | h <;> (cases h; decide)
+  refine ⟨?_, by rw [Text.roundtrip a.den r hr.1 hr.2, ofInt_den_self a ha]⟩
+  have hm : LB.magnitudeToStr a r = .ok (natToStr r a.den.natAbs) := by
+    cases a with
+    | short v => 
+      simp only [LB.magnitudeToStr, den_short]
+      rw [if_pos (by rcases ht with h | h | h | h <;> (cases h; decide))]
+    | long v => simp only [LB.magnitudeToStr, den_long]; rw [if_pos hr]
+  rcases ht with h | h | h | h <;> cases h <;>
+    simp [IntB.format, hm, toStrRadix, LB.isNegative]
 
 /-- non-vacuity: operands straddling 2^63 -/
 example : Correct (LB.mul (long 9223372036854775808) (short (-1))) (-9223372036854775808) :=
